@@ -262,6 +262,9 @@ def run_symbolic(execute, cfg, mods, rounds=0, conj=False, symbolic_labels=False
             raise
         except Exception as e:
             return ('exc', e, traceback.format_exc()[-1200:], V)
+        if ctx.inconsistent():
+            # vacuity guard: an inconsistent path condition would entail everything
+            raise PathAbort()
         res = []
         for ob in obs:
             e = SC.lift(ob.expr)
